@@ -2,8 +2,13 @@
    (Gen/Repo_ds.v).  These are the functions that are extracted and that the property theorems
    are stated about. *)
 From Coq Require Import NArith List.
-From LCP Require Import Base.CheckedMem Gen.Repo_ds DS.AllocOracle DS.ElasticArray DS.ElasticQueue
-  DS.SeqPtrMap DS.Mpool.
+From LCP Require Import Base.CheckedMem.
+From LCP Require Import Gen.Repo_ds.
+From LCP Require Import DS.AllocOracle.
+From LCP Require Import DS.ElasticArray.
+From LCP Require Import DS.ElasticQueue.
+From LCP Require Import DS.SeqPtrMap.
+From LCP Require Import DS.Mpool.
 
 Definition r_resize := resize_m ea_grow_mul ea_shrink_div ea_shrink_mul.
 Definition r_ea_step := ea_step ea_grow_mul ea_shrink_div ea_shrink_mul ea_struct_size.
